@@ -102,14 +102,16 @@ impl ContinuousOutput {
             return None;
         }
         
-        let tol = 1e-12;
-        
-        // Strict interpolation - only return segment if t is within it
-        for seg in &self.segs {
-            let left = seg.xold.min(seg.xold + seg.h);
-            let right = seg.xold.max(seg.xold + seg.h);
-            if t >= left - tol && t <= right + tol {
-                return Some(seg);
+        // Strict interpolation - only return segment if t is within it. The step that really
+        // contains t wins; the slack only admits times a rounding error outside every step
+        // (otherwise, with steps of 1e-12 or less, a neighbouring step would be extrapolated).
+        for tol in [0.0, 1e-12] {
+            for seg in &self.segs {
+                let left = seg.xold.min(seg.xold + seg.h);
+                let right = seg.xold.max(seg.xold + seg.h);
+                if t >= left - tol && t <= right + tol {
+                    return Some(seg);
+                }
             }
         }
         
@@ -121,14 +123,14 @@ impl ContinuousOutput {
             return None;
         }
         
-        let tol = 1e-12;
-        
-        // First check if t is within any segment (interpolation)
-        for seg in &self.segs {
-            let left = seg.xold.min(seg.xold + seg.h);
-            let right = seg.xold.max(seg.xold + seg.h);
-            if t >= left - tol && t <= right + tol {
-                return Some(seg);
+        // First check if t is within any segment (interpolation); exact containment first
+        for tol in [0.0, 1e-12] {
+            for seg in &self.segs {
+                let left = seg.xold.min(seg.xold + seg.h);
+                let right = seg.xold.max(seg.xold + seg.h);
+                if t >= left - tol && t <= right + tol {
+                    return Some(seg);
+                }
             }
         }
         
